@@ -294,6 +294,12 @@ def reader_chain(L, path):
     ks = [k for k in L.roots if k.endswith('::visit_str') and 'serde::de::Visitor' in k and _impl_self(k, 'serde::de::Visitor') in fvis]
     if ks:
         out['visit_str'] = ks
+    # the other entry points a format may use for a key given as text: serde's defaults forward them to visit_str, an override
+    # is a second reader table (serde_json::from_str hands keys to visit_borrowed_str)
+    for m in ('visit_borrowed_str', 'visit_string'):
+        ks = [k for k in L.roots if k.endswith('::' + m) and 'serde::de::Visitor' in k and _impl_self(k, 'serde::de::Visitor') in fvis]
+        if ks:
+            out[m] = ks
     return out
 
 
@@ -302,10 +308,10 @@ def reader_roots(L, path, method):
     return reader_chain(L, path).get(method, [])
 
 
-def check_field_visitor(run, L, path, fields, root_key, strict):
+def check_field_visitor(run, L, path, fields, root_key, strict, method='visit_str'):
     """visit_str: name_i -> its own variant; any other key -> Err (strict) or the ignore variant (derive default).
     Returns {name: variant index}."""
-    key = '%s:de:%s:visit_str' % (PROP, path.split('::')[-1] if path == 'transform::Decomposed' else path)
+    key = '%s:de:%s:%s' % (PROP, path.split('::')[-1] if path == 'transform::Decomposed' else path, method)
     r = L.roots[root_key]
     run.roots.add(root_key)
     name_to_variant = {}
@@ -585,6 +591,11 @@ def run(tier):
                     check_derive_census(run, L, proxy.group(1))
             elif run.ob('%s:de:%s:visit_str:present' % (PROP, tag), len(ks) == 1, rule='K8 reader table', expected='field-name visitor', found=ks):
                 n2v = check_field_visitor(run, L, path, fields, ks[0], strict=True)
+                # an overridden visit_borrowed_str / visit_string is what some formats call instead of visit_str: the same table
+                for m_ in ('visit_borrowed_str', 'visit_string'):
+                    for k_ in chain.get(m_, []):
+                        n2 = check_field_visitor(run, L, path, fields, k_, strict=True, method=m_)
+                        run.ob('%s:de:%s:%s:agrees' % (PROP, tag, m_), n2 == n2v, rule='K8 reader table', expected='the same name -> variant table as visit_str', found=n2, where=L.roots[k_].get('span'))
                 if len(n2v) == len(fields):
                     check_visit_map(run, L, n2v, [f['name'] for f in a['fields']], path)
     run.notes['impl_kinds'] = how
